@@ -215,7 +215,9 @@ class World:
         f[7] = p.tty_nr
         f[8] = -1
         f[9] = 4194304
-        f[10], f[11], f[12], f[13] = 81, 82, 83, 84
+        # page-fault counters of a long-lived, busy process: 20 digits each (a reader that looks at a
+        # fixed-size prefix of the record loses the CPU times behind them)
+        f[10], f[11], f[12], f[13] = 2 ** 64 - 81, 2 ** 64 - 82, 2 ** 64 - 83, 2 ** 64 - 84
         f[14], f[15], f[16], f[17] = ut, st, p.cutime, p.cstime
         f[18] = 20 + p.nice
         f[19] = p.nice
